@@ -52,7 +52,7 @@ fn main() {
             }
             // the secondary no-std configuration of a property other than C04 always runs the quick
             // workload (the same code paths; the thorough depth is spent in the primary configuration)
-            let run_tier = if (config == "nostd" && prop != "C04") || (config == "serde" && prop != "C19" && prop != "C07") || config == "serdenostd" || config == "serdeonly" || config == "plain" { Tier::Quick } else { tier };
+            let run_tier = if (config == "nostd" && prop != "C04") || (config == "serde" && prop != "C19" && prop != "C07") || config == "serdenostd" || config == "serdeonly" || config == "plain" || config == "plainnostd" { Tier::Quick } else { tier };
             let ctx = Ctx { prop, tier: run_tier, seed, threads, config, reduced: false };
             let started = Instant::now();
             let report = match guarded(|| vharness::run_property(&ctx)) {
